@@ -29,6 +29,7 @@ FIRST_ATTEMPT = {
     "C12-5": "**missed** -> C12 inputs gained long tokens of mixed byte width",
     "C13-5": "**missed** -> half of the C13 histories run in `BDDEnv::default()`; a just-created environment is inspected",
     "C10-6": "**missed** (needs > 64 free variables) -> C10 stage *wide formulas* judged by counting instead of a truth table; C09 and C19 got wide stages too",
+    "C06-10": "**missed** (the body reaches the bound name through a `{d}` definition made with `ParsedFormula::define`) -> C06 stage *fixed points through definitions* (10 bodies x 10 definitions against the inlined text)",
     "C10-9": "not caught by C10 (needs same-name nested fixed-point binders), caught by C09 - the free-variable analysis is C09's subject",
     "C06-8": "**missed** (needs a Kleene chain longer than the number of names) -> C06 / C01 generate bodies with chains of 2^k applications",
     "C01-8": "not a C01 matter (sparse API orderings): **missed** by C01, caught by C11 and C09",
@@ -55,7 +56,7 @@ def main():
            "of `/verif` whose harness points at it), quick tier, `VERIF_SEED=0`; `/repo` itself was never modified. `tests` = the",
            "repository's own 31-test suite with the change applied (`!!` = the suite itself notices the change: a weak mutant).", "",
            "### C.1 Changes written by independent sub-agents (`/verif/seeded/<ID>[-round]/`)", "",
-           "Nine rounds of sub-agents (20 each, the ninth 10); each saw only the text of one property (from round 2 on with a short hint at an angle",
+           "Ten rounds of sub-agents (20 each, the ninth 10; the tenth was asked for the least exercised *place* instead of a shape of change); each saw only the text of one property (from round 2 on with a short hint at an angle",
            "not derived from /verif) and its own worktree. Every change compiles, passes the 31 tests, and its demonstration fails",
            "with / passes without the change (re-confirmed in the lab, `meta.json`). `first attempt` says what happened when the",
            "change was first run against the checks as they were at that moment.", "",
